@@ -417,7 +417,14 @@ func RunFamily(f Family, o Options) *FamilyReport {
 		// binding self-test: corrupt one recorded observation and drop one line;
 		// the first must be flagged by the specification, the second must leave the trace unaccepted
 		if o.SelfTest && rep.TraceLines >= 2 {
-			rep.SelfTestFired = selfTest(f, dir, cases, outs, writeTrace)
+			failedKeys := map[string]bool{}
+			for _, fl := range rep.Fails {
+				failedKeys[fl.Case.Key] = true
+			}
+			for _, d := range rep.Drift {
+				failedKeys[d] = true
+			}
+			rep.SelfTestFired = selfTest(f, dir, cases, outs, failedKeys)
 		}
 	}
 
